@@ -82,7 +82,9 @@ pub fn sheet_text(sheet: &Value, r: &mut Rng, v: &Vary) -> String {
     let mut s = String::new();
     for rule in sheet.as_array().unwrap() {
         if v.junk && r.chance(1, 3) {
-            s.push_str(*r.pick(&["@import url(x.css);\n", "@media print { p { color: red } }\n", "@charset \"utf-8\";", "q:hover { color: red }\n", "a[href] { color: blue; }\n", "p::first-line { color: red }\n", "@font-face { font-family: x; src: url(y) }\n"]));
+            s.push_str(*r.pick(&["@import url(x.css);\n", "@media print { p { color: red } }\n", "@charset \"utf-8\";", "q:hover { color: red }\n", "a[href] { color: blue; }\n", "p::first-line { color: red }\n",
+                              "li:not(.x) b { color: red }\n", "ul:is(.x,.y) p { color: red; }\n", "li:nth-of-type(2) em { color: red }\n", "@include wrap(40) p { color: red }\n",
+                              "a[href^=\"x\"] span { color: red }\n", "div:has(> p) span { color: red }\n", "p:not(.x):not(.y) { color: red }\n", "@font-face { font-family: x; src: url(y) }\n"]));
         }
         let sels: Vec<String> = rule["sels"].as_array().unwrap().iter().map(|x| selector_text(x, r, v.on)).collect();
         s.push_str(&sels.join(if v.on && r.chance(1, 2) { "," } else { ", " }));
@@ -130,7 +132,7 @@ impl CssDoc {
                    else { *r.pick(&["div", "p", "span", "em", "ul", "section", "div", "p"]) };
         let structural = name == "table" || name == "tr";
         let mut attrs: Vec<(&str, String)> = vec![];
-        if r.chance(1, 2) { let mut cl = vec![*r.pick(CLASSES)]; if r.chance(1, 3) { let c2 = *r.pick(CLASSES); if !cl.contains(&c2) { cl.push(c2); } } attrs.push(("class", cl.join(" "))); }
+        if r.chance(1, 2) { let mut cl = vec![*r.pick(CLASSES)]; if r.chance(1, 3) { let c2 = *r.pick(CLASSES); if !cl.contains(&c2) { cl.push(c2); } } attrs.push(("class", cl.join(*r.pick(&[" ", " ", " ", "  ", "\t", "\n", " \n ", "\u{c}"])))); }
         if r.chance(1, 4) { let id = format!("i{}", self.ids.len() + 1); self.ids.push(id.clone()); attrs.push(("id", id)); }
         let mut kids = vec![];
         let nk = if structural { r.range(1, 3) } else if depth >= 3 { r.below(2) } else { r.below(4) };
